@@ -69,6 +69,7 @@ const (
 	c10RedPanic
 	c10RedCancelErr
 	c10RedCancelNil
+	c10MapCancelTwice // cancel(err) then cancel(typed error): only the first cancellation counts
 	c10CtxCancel
 	c10NumFaults
 )
@@ -123,6 +124,10 @@ func (w *c10World) mapper(fault, at int) MapperFunc[int, c10Msg] {
 			case c10MapCancelNil:
 				w.mapperCancelled = true
 				cancel(nil)
+			case c10MapCancelTwice:
+				w.mapperCancelled = true
+				cancel(c10ErrCancel)
+				cancel(c10TypedErr{code: 7}) // a second cancellation, with an error of another dynamic type, is ignored
 			}
 		}
 	}
@@ -322,7 +327,7 @@ func Verif_C10_CleanWide() {
 
 func c10Faults(n, workers, fault int, stall bool) {
 	at := rt.Choose("at", n+1)
-	if (fault == c10MapPanic || fault == c10MapCancelErr || fault == c10MapCancelNil) && at >= n {
+	if (fault == c10MapPanic || fault == c10MapCancelErr || fault == c10MapCancelNil || fault == c10MapCancelTwice) && at >= n {
 		rt.Assume(false)
 	}
 	if fault == c10CtxCancel && at > 0 {
@@ -378,7 +383,7 @@ func c10Faults(n, workers, fault int, stall bool) {
 		switch {
 		case res.err == c10ErrCancel:
 			rt.Cover("cancelerr")
-			rt.Assert(fault == c10MapCancelErr || fault == c10RedCancelErr, "an error is returned only if it was passed to cancel")
+			rt.Assert(fault == c10MapCancelErr || fault == c10RedCancelErr || fault == c10MapCancelTwice, "an error is returned only if it was passed to cancel")
 		case res.err == ErrCancelWithNil:
 			rt.Cover("cancelnil")
 			rt.Assert(fault == c10MapCancelNil || fault == c10RedCancelNil, "ErrCancelWithNil only after cancel(nil)")
@@ -394,7 +399,7 @@ func c10Faults(n, workers, fault int, stall bool) {
 				rt.Assert(allDone && res.val == w.wantSum(), "a nil error comes with the complete reduction")
 			}
 			switch fault {
-			case c10MapCancelErr, c10MapCancelNil:
+			case c10MapCancelErr, c10MapCancelNil, c10MapCancelTwice:
 				// with the early-writing reducer the result can be out before the mapper cancels
 				rt.Assert(style == 1, "a cancelling mapper never yields a nil error once the reducer waits for the end of the pipe")
 			case c10MapPanic:
@@ -415,7 +420,7 @@ func c10Faults(n, workers, fault int, stall bool) {
 }
 
 //verif:entry tier=quick,thorough steps=4000000 cover=repanic,cancelerr,cancelnil,completed
-//verif:doc MapReduce / MapReduceVoid with one fault, ALL interleavings (sleep-set reduced): 1 item x 1 worker (thorough also 1 item x 2 workers and 2 items x 1 worker), fan-out 1; the generator before item j, the mapper of item j or the reducer after k values panics, or the mapper/reducer cancels with an error or nil; the reducer either sums at the end or writes on the first value. The call returns (no deadlock) the cancel error / ErrCancelWithNil or re-raises exactly the user panic; a nil error means all work was done; no goroutine is left.
+//verif:doc MapReduce / MapReduceVoid with one fault, ALL interleavings (sleep-set reduced): 1 item x 1 worker (thorough also 1 item x 2 workers and 2 items x 1 worker), fan-out 1; the generator before item j, the mapper of item j or the reducer after k values panics, or the mapper/reducer cancels with an error or nil, or the mapper cancels twice with errors of different dynamic types; the reducer either sums at the end or writes on the first value. The call returns (no deadlock) the cancel error / ErrCancelWithNil or re-raises exactly the user panic; a nil error means all work was done; no goroutine is left.
 func Verif_C10_Faults() {
 	workers, n := 1, 1
 	if rt.Tier() > 0 {
@@ -442,4 +447,59 @@ func Verif_C10_Context() {
 //verif:doc MapReduce / MapReduceVoid with one fault (panic or cancel in generator/mapper/reducer), 2 items x 2 workers, schedules with at most 1 preemption; same assertions as Verif_C10_Faults.
 func Verif_C10_FaultsWide() {
 	c10Faults(2, 2, 1+rt.Choose("fault", c10CtxCancel-1), false)
+}
+
+type c10TypedErr struct{ code int }
+
+func (e c10TypedErr) Error() string { return "c10: typed cancel error" }
+
+//verif:entry tier=thorough steps=4000000 preempt=1 cover=first,second,ctx
+//verif:doc MapReduce with TWO cancellations whose errors have different dynamic types: 2 items x 2 workers, the mapper of item 0 cancels with an errors.New value and the mapper of item 1 with a struct-typed error, or one mapper cancels while the caller's context ends; schedules with at most 1 preemption: the call returns one of the errors passed to cancel (or a context error), never panics, and leaves no goroutine.
+func Verif_C10_TwoCancels() {
+	withCtx := rt.Choose("secondIsContext", 2) == 1
+	w := c10NewWorld(2, 2, 1)
+	res := &c10Result{}
+	typed := c10TypedErr{code: 7}
+	opts := []Option{WithWorkers(2)}
+	if withCtx {
+		ctx := &c10Ctx{done: make(chan struct{})}
+		opts = append(opts, WithContext(ctx))
+		go func() {
+			rt.Yield()
+			ctx.err = context.Canceled
+			w.ctxEnded = true
+			close(ctx.done)
+		}()
+	}
+	func() {
+		defer func() { res.panicked = recover() }()
+		res.val, res.err = MapReduce(w.generate(c10None, -1), func(item int, writer Writer[c10Msg], cancel func(error)) {
+			w.usersRunning++
+			defer func() { w.usersRunning-- }()
+			w.mapped[item]++
+			rt.Yield()
+			if item == 0 {
+				w.mapperCancelled = true
+				cancel(c10ErrCancel)
+			} else if !withCtx {
+				w.mapperCancelled = true
+				cancel(typed)
+			}
+		}, w.reducer(0, c10None, -1), opts...)
+		res.returned = true
+	}()
+	rt.Assert(res.panicked == nil, "cancelling twice (with errors of different types) never makes the call panic")
+	switch {
+	case res.err == c10ErrCancel:
+		rt.Cover("first")
+	case res.err == error(typed):
+		rt.Cover("second")
+		rt.Assert(!withCtx, "an error is returned only if it was passed to cancel")
+	case res.err == context.DeadlineExceeded || res.err == context.Canceled:
+		rt.Cover("ctx")
+		rt.Assert(withCtx, "a context error only when the context ended")
+	default:
+		rt.Assert(false, "after a mapper cancelled, the call returns an error that was passed to cancel or a context error")
+	}
+	w.checkQuiescent(res)
 }
